@@ -397,7 +397,7 @@ class ExprMixin:
         idx = self.val(e.slice, fr, st)
         return self.subscript(base_id, idx, st, fr, site)
 
-    def subscript(self, base_id: Node, idx: Node, st: St, fr: Frame, site) -> Node:
+    def subscript(self, base_id: Node, idx: Node, st: St, fr: Frame, site, _depth=0) -> Node:
         base = self.res(base_id, st)
         if base.op in ("Tuple", "List") and not any(a.op == "Starred" for a in base.args):
             if idx.op == "Const" and isinstance(idx.attr, int) and not isinstance(idx.attr, bool):
@@ -421,10 +421,11 @@ class ExprMixin:
                 return self.const(base.attr[idx.attr], site)
             except Exception:
                 pass
-        if base.op == "Phi" and any(x.op in ("Tuple", "List", "Dict", "Obj", "Phi") for x in base.args[1:]):
+        if base.op == "Phi" and _depth < 12 and \
+                any(x.op in ("Tuple", "List", "Dict", "Obj", "Phi") for x in base.args[1:]):
             c, a, b = base.args
-            va = self.subscript(a, idx, st, fr, site) if a.op != "Undefined" else a
-            vb = self.subscript(b, idx, st, fr, site) if b.op != "Undefined" else b
+            va = self.subscript(a, idx, st, fr, site, _depth + 1) if a.op != "Undefined" else a
+            vb = self.subscript(b, idx, st, fr, site, _depth + 1) if b.op != "Undefined" else b
             return self.phi(c, va, vb, site)
         if base.op == "Obj" and base.extra.get("cls") is not None:
             gi = self.find_method(base.extra["cls"], "__getitem__")
